@@ -126,6 +126,9 @@ def transpile_token(
                 temp += '\\"'
             elif char == "\n":
                 temp += "\\n"
+            elif char == "\r":
+                # Python ends the source line at a bare carriage return too
+                temp += "\\r"
             else:
                 temp += char
         return indent_str(f'stack.append("{temp}")', indent)
